@@ -383,80 +383,81 @@ def analyse(spec, quick=True, acc=None):
                 break
         return out
     # ---------------- lanes ----------------
+    # A lane is one digit (base N) of one request.  Each lane is swept through all its digit values with every
+    # other digit at 0; it may move at most ONE output position (or none: a dead digit, e.g. masked-off bits).
+    # Lanes are then grouped by the position they drive, and for every position the JOINT sweep of all its lanes
+    # (all combinations of their digit values) must visit the legal symbols of that position uniformly.
     acc.count("lane_targets")
     lane_pos = {}
-    singles = {}
+    lane_N = {}
     for r, R in enumerate(sizes):
         N, k = digits_for(R, hint)
         if N > 70000:
             viol("unanalysable_request", f"request {r} has range {R} which is no power of the alphabet size {hint} nor of 2")
-            continue
+            return out
         for i in range(k):
             pos = None
-            vals = collections.Counter()
-            ok = True
-            nochange = []
-            for d in range(N):
+            for d in range(1, N):
                 ans = [0] * len(sizes)
                 ans[r] = d * N**i
                 o, lg = run(ans, f"lane:{r}.{i}:{d}")
                 if lg != log:
                     viol("data_dependent_requests", f"requests change with answer {ans[r]} of request {r}")
-                    ok = False
-                    break
+                    return out
                 diff = [j for j in range(len(o)) if o[j] != base[j]]
-                if d == 0:
-                    if diff:
-                        raise core.HarnessError("scripted source is not deterministic")
-                    vals[base[0] if pos is None else base[pos]] += 0
-                    continue
                 if not diff:
-                    # several digit values may map to one symbol (e.g. padding bits of bcrypt's last salt character);
-                    # the multiplicity test below decides whether that is uniform over the legal alphabet
-                    if pos is not None:
-                        vals[base[pos]] += 1
-                    else:
-                        vals["__base__"] += 1
-                    nochange.append(d)
                     continue
                 if len(diff) != 1:
                     viol("lane_spread",
-                         f"digit {i} of request {r} (value {d}) changes {len(diff)} output positions {diff[:8]} instead of exactly one")
-                    ok = False
-                    break
+                         f"digit {i} of request {r} (value {d}) changes {len(diff)} output positions {diff[:8]} instead of at most one")
+                    return out
                 if pos is None:
                     pos = diff[0]
                 elif pos != diff[0]:
                     viol("lane_wanders", f"digit {i} of request {r} drives position {pos} and {diff[0]}")
-                    ok = False
-                    break
-                vals[o[pos]] += 1
-                singles[(r, i, d)] = (pos, o[pos])
-            if not ok:
-                return out
-            if pos is None:
-                viol("lane_dead", f"digit {i} of request {r} never changes the output")
-                return out
-            vals[base[pos]] += 1 + vals.pop("__base__", 0)  # d == 0 and earlier no-change digits
-            for d in nochange:
-                singles[(r, i, d)] = (pos, base[pos])
+                    return out
             if pos == len(base) - 1:
                 viol("size", "the output length depends on the random answer")
                 return out
-            L = legal(pos)
-            if set(vals) != set(L) or len(set(vals.values())) != 1:
-                viol("lane_alphabet",
-                     f"digit {i} of request {r} moves position {pos} through {len(vals)} symbols with multiplicities "
-                     f"{sorted(set(vals.values()))}; declared alphabet has {len(L)}")
-                return out
-            if pos in lane_pos.values():
-                viol("lane_collision", f"two digits drive output position {pos}")
-                return out
-            lane_pos[(r, i)] = pos
-    if len(lane_pos) != npos:
-        viol("uncovered_positions", f"{npos - len(lane_pos)} of {npos} output positions are not driven by any random digit")
+            lane_N[(r, i)] = N
+            if pos is not None:
+                lane_pos[(r, i)] = pos
+    by_pos = collections.defaultdict(list)
+    for lane, pos in lane_pos.items():
+        by_pos[pos].append(lane)
+    if len(by_pos) != npos:
+        missing = [j for j in range(npos) if j not in by_pos]
+        viol("uncovered_positions", f"{len(missing)} of {npos} output positions (e.g. {missing[:4]}) are not driven by any random digit")
         return out
-    # ---------------- pairs of lanes: independence ----------------
+    singles = {}
+    for pos, lanes_here in sorted(by_pos.items()):
+        combos = 1
+        for lane in lanes_here:
+            combos *= lane_N[lane]
+        if combos > 70000:
+            viol("unanalysable_position", f"position {pos} is driven by {len(lanes_here)} digits ({combos} combinations)")
+            return out
+        vals = collections.Counter()
+        for digs in itertools.product(*[range(lane_N[lane]) for lane in lanes_here]):
+            ans = [0] * len(sizes)
+            for (r, i), d in zip(lanes_here, digs):
+                ans[r] += d * lane_N[(r, i)] ** i
+            o, lg = run(ans, f"pos:{pos}:{digs}")
+            diff = [j for j in range(len(o)) if o[j] != base[j]]
+            if any(j != pos for j in diff):
+                viol("lane_interaction", f"digits {lanes_here} together change positions {diff[:6]}, not only {pos}")
+                return out
+            vals[o[pos]] += 1
+            if sum(1 for d in digs if d) == 1:
+                k = [n for n, d in enumerate(digs) if d][0]
+                singles[(lanes_here[k][0], lanes_here[k][1], digs[k])] = (pos, o[pos])
+        L = legal(pos)
+        if set(vals) != set(L) or len(set(vals.values())) != 1:
+            viol("position_nonuniform",
+                 f"the {combos} equally likely values of the random digits driving position {pos} give {len(vals)} symbols with "
+                 f"multiplicities {sorted(set(vals.values()))[:5]}; the declared alphabet has {len(L)} symbols")
+            return out
+    # ---------------- pairs of lanes driving DIFFERENT positions: independence ----------------
     lanes = sorted(lane_pos)
     if len(lanes) <= 70 or not quick:
         pairs = list(itertools.combinations(lanes, 2))
@@ -466,9 +467,12 @@ def analyse(spec, quick=True, acc=None):
         idx = {lane: n for n, lane in enumerate(lanes)}
         pairs = [(a, b) for a in lanes for b in lanes if 0 < idx[b] - idx[a] <= 8]
     for (r1, i1), (r2, i2) in pairs:
-        N1, _ = digits_for(sizes[r1], hint)
-        N2, _ = digits_for(sizes[r2], hint)
+        if lane_pos[(r1, i1)] == lane_pos[(r2, i2)]:
+            continue
+        N1, N2 = lane_N[(r1, i1)], lane_N[(r2, i2)]
         for d1, d2 in ((1, 1), (N1 - 1, N2 - 1)) if max(N1, N2) > 2 else ((1, 1),):
+            if (r1, i1, d1) not in singles or (r2, i2, d2) not in singles:
+                continue
             ans = [0] * len(sizes)
             ans[r1] += d1 * N1**i1
             ans[r2] += d2 * N2**i2
